@@ -393,8 +393,16 @@ def writer_templates(ctx, rule, modname, mode, version):
         strs = [r[1] for r in rets if r[0] == 'str']
         raises = [r for r in rets if r[0] == 'raise']
         other = [r for r in rets if r[0] not in ('str', 'raise')]
-        out[kind] = {'tmpl': TP.Tmpl.union(strs) if strs else None, 'raises': raises, 'other': other,
-                     'node': lad[idx][2] if idx is not None else None}
+        node_ = lad[idx][2] if idx is not None else None
+        out[kind] = {'tmpl': TP.Tmpl.union(strs) if strs else None, 'raises': raises, 'other': other, 'node': node_}
+        if mode == 'zinc' and other:
+            # a ZINC writer function answers with text; None / a number / a container reaches ','.join and '%s'
+            ctx.violation(rule, 'hszinc/%s.py::dump_scalar[%s]' % (modname, kind), 'returns %r' % (other[0],),
+                          'dump_scalar(<%s>, version=%s) does not produce text: the writer for that kind returns %s, so the cell '
+                          'is written as the word "None" (or the join of the row fails with TypeError)'
+                          % (kind, version, 'None' if other[0] == ('const', None) else repr(other[0])),
+                          'the ZINC writer of %s returns a non-string value on some path' % kind,
+                          file='hszinc/%s.py' % modname, line=node_.lineno if node_ is not None else None, engine='E4')
     return out
 
 
